@@ -11,7 +11,7 @@ EXPLANATION = ('Static rules on the two-input operators: M0 both inputs are wire
                'slot empty); M2 merge/combine_latest/zip complete downstream only on the second completion (first completion only sets the '
                'flag); M3 take_until completes the main slot on the notifier\'s first item and ignores the notifier\'s own terminal, '
                'skip_until opens the gate on a notifier item only; M4 sample and buffer move the gathered data out before emitting it '
-               '(no duplication on the next tick); M5 zip\'s pending queues are first-in-first-out (necessary for pairing the i-th items). Does not decide pairing, latest-value selection or per-interleaving outputs.')
+               '(no duplication on the next tick); M6 the source side of sample never emits (values are released by notifier events only); M5 zip\'s pending queues are first-in-first-out (necessary for pairing the i-th items). Does not decide pairing, latest-value selection or per-interleaving outputs.')
 ASSUMPTIONS = ['the interleaving of the two inputs is arbitrary; only per-event handlers are analysed']
 
 SHARED = ['MutRc<ops::merge::MergeObserver>', 'MutArc<ops::merge::MergeObserver>',
@@ -30,7 +30,7 @@ CONTROLS = [
 
 
 def check(cx):
-    return m0(cx) + m1(cx) + m2(cx) + m3(cx) + m4(cx) + m5(cx)
+    return m0(cx) + m1(cx) + m2(cx) + m3(cx) + m4(cx) + m5(cx) + m6(cx)
 
 
 def m0(cx):
@@ -223,4 +223,26 @@ def m5(cx):
     res = fifo_findings(cx, ID, 'M5', ('src/ops/zip.rs',))
     if not cx.control and len(res) < 2:
         res.append(Finding(ID, 'M5', 'floor', False, 'expected the two zip queues, found %d' % len(res)))
+    return res
+
+
+def m6(cx):
+    """sample releases the gathered value on notifier events only: the source-side observer parks items and forwards terminals, it never emits"""
+    res = []
+    if cx.control:
+        return res
+    n = 0
+    for im in cx.observer_impls():
+        if roles.impl_tag(cx, im) != 'ops::sample::SourceObserver':
+            continue
+        for meth, spec in (('next', ''), ('complete', 'complete'), ('error', 'error')):
+            fn = cx.method(im, meth)
+            g = cx.graph(fn['key'])
+            n += 1
+            bad = lang_check(g, spec, down_token, exact=True, empty_ok=True)
+            res.append(Finding(ID, 'M6', cx.label(fn), not bad,
+                               ('the source side of sample must not release items (only a notifier tick selects a value): ' + bad[0]) if bad else "source side delivers '%s' only" % (spec or 'nothing'),
+                               fn['span'], bad[1] if bad else None))
+    if n < 3:
+        res.append(Finding(ID, 'M6', 'floor', False, 'sample source observer not found'))
     return res
